@@ -1,7 +1,9 @@
 package checks
 
 import (
+	"encoding/json"
 	"fmt"
+	"strconv"
 	"sort"
 	"strings"
 
@@ -100,4 +102,51 @@ func newRef(a *app.App, mode string, cfg engine.Config) *ref.VM {
 		}
 	}
 	return v
+}
+
+// qstrs is a list of byte strings that survives JSON: each element is written Go-quoted in ASCII
+// (encoding/json would replace bytes that are not UTF-8 by U+FFFD and the replay would not be the
+// recorded history).
+type qstrs []string
+
+func (q qstrs) MarshalJSON() ([]byte, error) {
+	l := make([]string, len(q))
+	for i, s := range q {
+		l[i] = strconv.QuoteToASCII(s)
+	}
+	return json.Marshal(l)
+}
+
+func (q *qstrs) UnmarshalJSON(b []byte) error {
+	var l []string
+	if err := json.Unmarshal(b, &l); err != nil {
+		return err
+	}
+	out := make([]string, len(l))
+	for i, s := range l {
+		u, err := strconv.Unquote(s)
+		if err != nil {
+			return err
+		}
+		out[i] = u
+	}
+	*q = out
+	return nil
+}
+
+type qstr string
+
+func (q qstr) MarshalJSON() ([]byte, error) { return json.Marshal(strconv.QuoteToASCII(string(q))) }
+
+func (q *qstr) UnmarshalJSON(b []byte) error {
+	var s string
+	if err := json.Unmarshal(b, &s); err != nil {
+		return err
+	}
+	u, err := strconv.Unquote(s)
+	if err != nil {
+		return err
+	}
+	*q = qstr(u)
+	return nil
 }
